@@ -707,11 +707,21 @@ where
         }
     }
 
+    /// Map a raw hash value away from the two slot markers (0 = empty, u64::MAX = tombstone)
+    #[inline]
+    fn slot_hash(raw: u64) -> u64 {
+        match raw {
+            0 => 1,
+            u64::MAX => u64::MAX - 1,
+            h => h,
+        }
+    }
+
     /// Hash a key using the configured hasher
     fn hash_key(&self, key: &K) -> u64 {
         let mut hasher = self.hash_builder.build_hasher();
         key.hash(&mut hasher);
-        hasher.finish()
+        Self::slot_hash(hasher.finish())
     }
 
     /// Hash a borrowed key using the configured hasher
@@ -722,7 +732,7 @@ where
     {
         let mut hasher = self.hash_builder.build_hasher();
         key.hash(&mut hasher);
-        hasher.finish()
+        Self::slot_hash(hasher.finish())
     }
 
     /// Resize the storage to accommodate more elements
@@ -993,7 +1003,7 @@ where
 
         let mut hasher = hash_builder.build_hasher();
         key.hash(&mut hasher);
-        let hash = hasher.finish();
+        let hash = Self::slot_hash(hasher.finish());
 
         let capacity = entries.len();
         let index = (hash as usize) & *mask;
@@ -1087,7 +1097,7 @@ where
 
         let mut hasher = hash_builder.build_hasher();
         key.hash(&mut hasher);
-        let hash = hasher.finish();
+        let hash = Self::slot_hash(hasher.finish());
 
         let capacity = entries.len();
         let index = (hash as usize) & *mask;
